@@ -12,8 +12,8 @@ WIDE_QUICK = 2000
 PROP = 'C10'
 EXHAUSTIVE = False
 RULE = ('systematic: edition {2006,2013,2020} x use_server_timing x reply class {accepted, negative, truncated, wrong echo, other '
-        'service, silence, suppressed} x field values {0,1,0x7FFF,0x8000,0xFFFF,random}, each followed by two probing calls '
-        '(silence; pending then silence); random grammar histories. non-trivial = history contains a session change (distinct)')
+        'service, silence, suppressed} x field values {0,1,0x7FFF,0x8000,0xFFFF,random}, each followed by three probing calls '
+        '(silence; pending then silence; send_request with its own timeout, pending then silence); random grammar histories. non-trivial = history contains a session change (distinct)')
 ASSUMPTIONS = ['timeouts derived from the server fields are compared after rounding to the microsecond (the client keeps float seconds)']
 
 FIELDS = [0, 1, 50, 0x7FFF, 0x8000, 0xFFFF]
@@ -44,6 +44,8 @@ def gen_cases(tier, seed):
                             h.spr_exit()
                         h.call(6, [], [], [])
                         h.call(7, [1], [], [(7, b'\x7f\x11\x78')])
+                        # ... and a request sent through send_request with a timeout of its own: after a pending reply the server's P2* still applies
+                        h.call(1, [0x3E, 0, 0, 0, rnd.choice([64000000, 2000000])], [b''], [(7, b'\x7f\x3e\x78')])
                         yield h.case(5000, 'systematic %s' % kname)
     n, m = (2000, 12) if tier == 'quick' else (100000, 40)
     for _ in range(n):
@@ -80,10 +82,12 @@ def oracle(c, r):
             # waits of this call must use the timing in force
             waits = [e for e in d['events'] if e[0] == 'W']
             per_call = args[4] if callid == 1 else -1
-            if waits and per_call < 0:
+            if waits:
                 p2 = timing[0] if timing[0] is not None else cur[cl.P2]
                 p2s = timing[1] if timing[1] is not None else cur[cl.P2S]
                 overall = None if cur[cl.REQ_TO] < 0 else cur[cl.REQ_TO]
+                if per_call >= 0:      # a timeout of its own replaces the first window and the overall limit; P2* stays the one in force
+                    p2 = overall = per_call
                 # a composite call (unlock) restarts its windows at each send
                 sends = [k for k, e in enumerate(d['events']) if e[0] == 'S']
                 for si, sidx in enumerate(sends):
